@@ -122,6 +122,8 @@ class RoleReport:
         self.leaks = []  # (fn, node, mode)  role still held at a normal exit
         self.exits_ok = []
         self.handles = 0
+        self.dirty_exc = []  # (fn, raising cfg node): exception escapes with role held after a destructive effect
+        self.dirty_sites = []
 
 
 def _deserialize_promote_call(ctx, fn, call):
@@ -133,7 +135,7 @@ def _deserialize_promote_call(ctx, fn, call):
     return isinstance(arg, ast.Constant) and arg.value is True
 
 
-def role_typestate(ctx, fn):
+def role_typestate(ctx, fn, dirty_pred=None):
     """Walk every path of fn with the automaton
          U (handle loaded, promotion not yet examined) -> P (promoted, role held) | N (not promoted)
          P -> D on demote_from_submitter()
@@ -195,6 +197,18 @@ def role_typestate(ctx, fn):
         return None
 
     def node_fn(n, st):
+        role, mode = st[0], st[1]
+        dirty = st[2] if len(st) > 2 else False
+        r2 = _node_fn(n, (role, mode))
+        if dirty_pred is not None and n.kind in ("stmt", "test", "for", "with"):
+            for call in cfg.calls_at(n):
+                if dirty_pred(call):
+                    dirty = True
+                    if (fn, call) not in rep.dirty_sites:
+                        rep.dirty_sites.append((fn, call))
+        return r2 + (dirty,) if len(st) > 2 else r2
+
+    def _node_fn(n, st):
         role, mode = st
         if n.id in init_nodes:
             return (init_nodes[n.id], mode)
@@ -215,7 +229,24 @@ def role_typestate(ctx, fn):
         return (role, mode)
 
     def edge_fn(src, dst, k, c, st):
+        r2 = _edge_fn(src, dst, k, c, (st[0], st[1]))
+        if r2 is None:
+            return None
+        if len(st) > 2:
+            role2, mode2 = r2
+            if k == "exc" and st[1] == "normal" and mode2 == "exc":
+                mode2 = ("exc", src.id)
+            elif isinstance(st[1], tuple) and mode2 == "exc":
+                mode2 = st[1]
+            return (role2, mode2, st[2])
+        return r2
+
+    def _edge_fn(src, dst, k, c, st):
         role, mode = st
+        if isinstance(mode, tuple):
+            mode = "exc"
+        if k == "exc" and any(classify(call) == "demote" for call in cfg.calls_at(src)):
+            role = "D"  # a failing demote is not chargeable to the caller's structure
         if k == "exc":
             from ..cfg import _is_exit_call
 
@@ -238,7 +269,13 @@ def role_typestate(ctx, fn):
             mode = "normal"  # a handler resumes normal execution
         return (role, mode)
 
-    at = typestate(cfg, ("X", "normal"), node_fn, edge_fn)
+    init = ("X", "normal", False) if dirty_pred is not None else ("X", "normal")
+    at = typestate(cfg, init, node_fn, edge_fn)
+    if dirty_pred is not None:
+        for st in at.get(cfg.raise_exit.id, ()):
+            if isinstance(st[1], tuple) and st[0] in ("P", "U") and st[2]:
+                rep.dirty_exc.append((fn, cfg.nodes[st[1][1]]))
+        at = {k: {(s[0], s[1] if not isinstance(s[1], tuple) else "exc") for s in v} for k, v in at.items()}
     for role, mode in at.get(cfg.exit.id, ()):
         if role == "P":
             rep.leaks.append((fn, fn.node, "return"))
